@@ -232,7 +232,7 @@ UNITS = {
 # property -> tier -> unit list
 PLAN = {
     'C10': {'quick': ['V1', 'K1'], 'thorough': ['V1', 'K1']},
-    'C04': {'quick': ['V1', 'V3', 'V4', 'V5', 'V6', 'V7', 'V9', 'V10', 'V11', 'K1', 'K12', 'K8q'], 'thorough': ['V1', 'V3', 'V4', 'V5', 'V6', 'V7', 'V9', 'V10', 'V11', 'K1', 'K12', 'K8t', 'K3t', 'K5']},
+    'C04': {'quick': ['V1', 'V3', 'V4', 'V5', 'V6', 'V7', 'V9', 'V10', 'V11', 'K1', 'K12', 'K8q'], 'thorough': ['V1', 'V3', 'V4', 'V5', 'V6', 'V7', 'V9', 'V10', 'V11', 'K1', 'K12', 'K8', 'K8t', 'K3t', 'K5']},
     'C11': {'quick': ['K7', 'K7s', 'K6e', 'K6t', 'K6d', 'V8', 'V12', 'K11f', 'K11s'], 'thorough': ['K7', 'K7s', 'K6e', 'K6t', 'K6d', 'V8', 'V12', 'K11f', 'K11s']},
     'C01': {'quick': ['K1', 'K7', 'V3', 'V4', 'V8', 'V9', 'V16', 'K2'], 'thorough': ['K1', 'K7', 'V3', 'V4', 'V8', 'V9', 'V16', 'K2', 'K2y', 'K5']},
     'C02': {'quick': ['K2', 'K7s', 'K6t', 'K6d', 'V5', 'V7', 'V8', 'V9', 'V11', 'V12', 'V15'], 'thorough': ['K2', 'K2y', 'K7s', 'K6t', 'K6d', 'V5', 'V7', 'V8', 'V9', 'V11', 'V12', 'V15', 'K5']},
